@@ -115,15 +115,22 @@ class FacadeStub:
         self.spa = spa
 
 
+class StateStub:
+    def __init__(self, state):
+        self.state = state
+
+
 class SpaAcc:
     def __init__(self, accessors):
         self.accessors = accessors
 
 
 @harness(prop="C13", target="geckolib.automation.pump:GeckoPump.async_set_mode")
-async def pump_mode_is_one_write_of_the_demand(k: int, use_async: bool):
+async def pump_mode_is_one_write_of_the_demand(k: int, use_async: bool, cur: int):
+    """whatever state the pump currently reports (the reported state lags the demand and may be stale)"""
     modes = ["OFF", "LO", "HI"]
-    requires(both(0 <= k, k < 3))
+    states = ["OFF", "LO", "HI", "LOW", "HIGH"]
+    requires(both(0 <= k, k < 3, 0 <= cur, cur < 5))
     mode = modes[concrete_cases(k, 0, 2)]
     acc = AccRec("Enum")
     other = AccRec("Enum")
@@ -132,6 +139,7 @@ async def pump_mode_is_one_write_of_the_demand(k: int, use_async: bool):
     p._name = "Pump 1"
     p._facade = FacadeStub(SpaAcc({"UdP1": acc, "UdP2": other}))
     p._user_demand = {"demand": "UdP1", "options": modes}
+    p._state_sensor = StateStub(states[concrete_cases(cur, 0, 4)])
     if use_async:
         await p.async_set_mode(mode)
     else:
